@@ -27,6 +27,39 @@ impl Write for Dribble {
     }
 }
 
+/// A writer with a native `write_vectored` that accepts at most `step` bytes per call IN TOTAL,
+/// continuing into the later slices (so a short write can end in the middle of any part).
+struct VecDribble {
+    out: Vec<u8>,
+    step: usize,
+    vectored_calls: u64,
+}
+impl Write for VecDribble {
+    fn write(&mut self, buf: &[u8]) -> io::Result<usize> {
+        let n = buf.len().min(self.step);
+        self.out.extend_from_slice(&buf[..n]);
+        Ok(n)
+    }
+    fn write_vectored(&mut self, bufs: &[io::IoSlice<'_>]) -> io::Result<usize> {
+        self.vectored_calls += 1;
+        let mut left = self.step;
+        let mut n = 0;
+        for b in bufs {
+            let k = b.len().min(left);
+            self.out.extend_from_slice(&b[..k]);
+            n += k;
+            left -= k;
+            if left == 0 {
+                break;
+            }
+        }
+        Ok(n)
+    }
+    fn flush(&mut self) -> io::Result<()> {
+        Ok(())
+    }
+}
+
 type Headers = Vec<(Vec<u8>, Vec<u8>)>;
 
 fn model_headers(code: u16, reason: Option<&str>, headers: &Headers) -> Vec<u8> {
@@ -86,13 +119,27 @@ fn gen_headers(rng: &mut Rng) -> Headers {
 }
 
 enum Call<'a> {
-    Headers(StatusCode, &'a Headers),
+    /// `lazy`: the headers come from an iterator whose size_hint has a lower bound of 0
+    Headers(StatusCode, &'a Headers, bool),
     Redirect(&'a str),
 }
 
 fn invoke<W: Write>(w: W, call: &Call) -> io::Result<usize> {
     match call {
-        Call::Headers(st, hs) => write_headers(w, *st, hs.iter().map(|(n, v)| (&n[..], &v[..]))),
+        Call::Headers(st, hs, false) => write_headers(w, *st, hs.iter().map(|(n, v)| (&n[..], &v[..]))),
+        Call::Headers(st, hs, true) => {
+            let mut i = 0;
+            write_headers(
+                w,
+                *st,
+                std::iter::from_fn(|| {
+                    let r = hs.get(i).map(|(n, v)| (&n[..], &v[..]));
+                    i += 1;
+                    r
+                })
+                .filter(|_| true),
+            )
+        }
         Call::Redirect(loc) => simple_redirect(w, loc),
     }
 }
@@ -175,6 +222,21 @@ fn check_call(c: &mut Case, call: &Call, expect: &[u8], what: &str, full_caps: b
             Err(p) => return fail(c, &panic_signature(&p), format!("panic: {p}")),
         }
     }
+    // writers with a native write_vectored that stop in the middle of any slice
+    for step in [1usize, 2, 3, 5, 7, 16, 1 + c.rng.below(40)] {
+        let mut d = VecDribble { out: Vec::new(), step, vectored_calls: 0 };
+        c.l.evaluations += 1;
+        c.l.count("vectored_partial_writers");
+        match guarded(|| invoke(&mut d, call)) {
+            Ok(Ok(n)) => {
+                if d.out != expect || n != l {
+                    return fail(c, "vectored-partial-writer-output", format!("vectored writer accepting {step} B/call: returned {n}, got {} bytes: {}", d.out.len(), hex_cap(&d.out, 120)));
+                }
+            }
+            Ok(Err(e)) => return fail(c, "vectored-partial-writer-error", format!("vectored writer accepting {step} B/call: {e}")),
+            Err(p) => return fail(c, &panic_signature(&p), format!("panic: {p}")),
+        }
+    }
     // Cursor over a bounded slice (another std bounded writer)
     let mut backing2 = vec![0xEEu8; l];
     let cap = if l > 0 { c.rng.below(l) } else { 0 };
@@ -216,9 +278,14 @@ pub fn run(ctx: &Ctx, evidence: Option<&PathBuf>) -> i32 {
         for (i, hs) in lists.iter().enumerate() {
             let expect = model_headers(code, reason, hs);
             let what = format!("write_headers({code}, {} headers)", hs.len());
-            if !check_call(c, &Call::Headers(st, hs), &expect, &what, true) {
+            if !check_call(c, &Call::Headers(st, hs, false), &expect, &what, true) {
                 return;
             }
+            // the same list through an iterator that cannot tell how many items it has
+            if !check_call(c, &Call::Headers(st, hs, true), &expect, &format!("{what} from an iterator with size_hint (0, _)"), false) {
+                return;
+            }
+            c.l.count("lazy_header_iterators");
             c.l.sig(u64::from(code) << 8 | i as u64);
             if code == 431 && i == 1 {
                 c.l.sample(Json::obj().with("call", what.clone()).with("output", String::from_utf8_lossy(&expect).into_owned()));
